@@ -110,7 +110,7 @@ impl BDDSerializer {
 //%% @after /let h = BDDSerializer::serialize_helper\(/
                 let ghost n2 = nodes@;
                 let ghost e2 = table.entries();
-//%% @after /table\.insert\(node, index\);/
+//%% @after /table\.insert\(node, [^;]*\);/
                 proof {
                     let n3 = nodes@;
                     lemma_inv_prefix(e2, n2, n3);
